@@ -11,6 +11,7 @@ import (
 	"fmt"
 	"io"
 	"reflect"
+	"runtime/debug"
 	"sort"
 	"strings"
 	"sync"
@@ -25,6 +26,8 @@ import (
 	"github.com/formancehq/ledger/internal/replication"
 	"github.com/formancehq/ledger/internal/replication/drivers"
 	"github.com/formancehq/ledger/internal/storage/common"
+
+	"github.com/formancehq/ledger/verifharness/sim"
 )
 
 // ---------- in-memory storage ----------
@@ -538,12 +541,94 @@ type c33Factory struct {
 	mem     *c33Mem
 	startUS int
 	n       atomic.Int64
+	batch   *c33BatchPlan
+	logger  logging.Logger
 }
 
 func (f *c33Factory) Create(ctx context.Context, id string) (drivers.Driver, json.RawMessage, error) {
 	n := f.n.Add(1)
 	f.mon.note("driver_create", nil, fmt.Sprintf("exporter %s instance %d", id, n))
-	return &c33Driver{mon: f.mon, mem: f.mem, exporter: id, inst: n, startUS: f.startUS}, json.RawMessage(`{}`), nil
+	rec := &c33Driver{mon: f.mon, mem: f.mem, exporter: id, inst: n, startUS: f.startUS, batched: f.batch != nil}
+	if f.batch == nil {
+		return rec, json.RawMessage(`{}`), nil
+	}
+	// the REAL batching wrapper, built the way production builds it (module.go decorates the
+	// driver factory with NewWithBatchingDriverFactory; the batching parameters come from the
+	// exporter's configuration)
+	cfg := fmt.Sprintf(`{"batching":{"maxItems":%d,"flushInterval":"%dus"}}`, f.batch.MaxItems, f.batch.FlushUS)
+	b, raw, err := drivers.NewWithBatchingDriverFactory(c33FixedFactory{d: rec, cfg: cfg}, f.logger).Create(ctx, id)
+	if err != nil {
+		return nil, nil, err
+	}
+	return &c33Outer{Driver: b, mon: f.mon, exporter: id}, raw, nil
+}
+
+type c33FixedFactory struct {
+	d   drivers.Driver
+	cfg string
+}
+
+func (f c33FixedFactory) Create(context.Context, string) (drivers.Driver, json.RawMessage, error) {
+	return f.d, json.RawMessage(f.cfg), nil
+}
+
+// c33Outer is what the manager (DriverFacade, PipelineHandler) sees of a batched exporter: it
+// numbers the pipeline's Accept calls, stamps the number on the logs and forwards to the real
+// drivers.Batcher. It never changes the Batcher's answer.
+type c33Outer struct {
+	drivers.Driver // the real *drivers.Batcher
+	mon            *c33Mon
+	exporter       string
+}
+
+const c33StampPrefix = "c33call:"
+
+func (o *c33Outer) Accept(ctx context.Context, logs ...drivers.LogWithLedger) (errs []error, err error) {
+	var p *c33Pipe
+	if len(logs) > 0 {
+		p = o.mon.byKey[logs[0].Ledger+"/"+o.exporter]
+	}
+	// In production this runs in a goroutine of PipelineHandler.Run without any recover: a panic
+	// below ends the whole process. Here it becomes a violation and the call fails.
+	defer func() {
+		if v := recover(); v != nil {
+			site := sim.PanicSite(debug.Stack())
+			state := "live"
+			if ctx.Err() != nil {
+				state = "cancelled (pipeline stopped during the call)"
+			}
+			o.mon.nBatcherPanics.Add(1)
+			o.mon.mu.Lock()
+			o.mon.violate(p, "C33/batched-accept-panicked:"+site,
+				fmt.Sprintf("drivers.Batcher.Accept panicked (%v) at %s; context of the call: %s; %d logs in the call. PipelineHandler.Run calls Accept in a goroutine without recover: the process would exit", v, site, state, len(logs)))
+			o.mon.mu.Unlock()
+			errs, err = nil, fmt.Errorf("c33: Batcher.Accept panicked: %v", v)
+		}
+	}()
+	if o.mon.light || p == nil {
+		return o.Driver.Accept(ctx, logs...)
+	}
+	ids := make([]uint64, len(logs))
+	for i, l := range logs {
+		if l.ID != nil {
+			ids[i] = *l.ID
+		}
+	}
+	call := o.mon.outerBegin(p, ctx, ids)
+	stamped := make([]drivers.LogWithLedger, len(logs))
+	for i, l := range logs {
+		l.IdempotencyHash = fmt.Sprintf("%s%d:%d:%d", c33StampPrefix, call.no, i, len(logs))
+		stamped[i] = l
+	}
+	defer func() {
+		if v := recover(); v != nil {
+			o.mon.outerEnd(call, fmt.Errorf("panic: %v", v))
+			panic(v)
+		}
+	}()
+	errs, err = o.Driver.Accept(ctx, stamped...)
+	o.mon.outerEnd(call, err)
+	return errs, err
 }
 
 type c33Driver struct {
@@ -553,6 +638,7 @@ type c33Driver struct {
 	inst     int64
 	startUS  int
 	stopped  atomic.Bool
+	batched  bool // sits below the real drivers.Batcher: receives chunks, possibly of several pipelines
 }
 
 func (d *c33Driver) Start(ctx context.Context) error {
@@ -577,6 +663,9 @@ func (d *c33Driver) Stop(ctx context.Context) error {
 func (d *c33Driver) Accept(ctx context.Context, logs ...drivers.LogWithLedger) ([]error, error) {
 	if len(logs) == 0 {
 		return nil, nil
+	}
+	if d.batched {
+		return d.acceptChunk(ctx, logs)
 	}
 	p := d.mon.byKey[logs[0].Ledger+"/"+d.exporter]
 	if p == nil {
@@ -615,6 +704,112 @@ func (d *c33Driver) Accept(ctx context.Context, logs ...drivers.LogWithLedger) (
 		return nil, ctx.Err()
 	}
 	return nil, nil
+}
+
+// acceptChunk: one flush of the real Batcher. The chunk may hold logs of several pipelines of
+// this exporter (and leftovers of abandoned calls); each pipeline's logs are decided on their own
+// and refusals are reported per item, or globally when the whole chunk is refused.
+func (d *c33Driver) acceptChunk(ctx context.Context, logs []drivers.LogWithLedger) ([]error, error) {
+	var groups []*c33Group
+	byLedger := map[string]*c33Group{}
+	for i, l := range logs {
+		g := byLedger[l.Ledger]
+		if g == nil {
+			g = &c33Group{p: d.mon.byKey[l.Ledger+"/"+d.exporter]}
+			byLedger[l.Ledger] = g
+			if g.p == nil {
+				d.mon.mu.Lock()
+				d.mon.violate(nil, "C33/foreign-ledger-log", fmt.Sprintf("exporter %s received logs of ledger %q for which it has no pipeline", d.exporter, l.Ledger))
+				d.mon.mu.Unlock()
+			} else {
+				groups = append(groups, g)
+			}
+		}
+		it := c33Item{tag: l.IdempotencyKey, ledger: l.Ledger}
+		if l.ID != nil {
+			it.id = *l.ID
+		}
+		if rest, ok := strings.CutPrefix(l.IdempotencyHash, c33StampPrefix); ok {
+			if _, err := fmt.Sscanf(rest, "%d:%d:%d", &it.call, &it.idx, &it.n); err == nil {
+				it.stamped = true
+			}
+		}
+		g.at = append(g.at, i)
+		g.items = append(g.items, it)
+		g.ids = append(g.ids, it.id)
+	}
+	if len(groups) > 1 {
+		d.mon.nMixedChunks.Add(1)
+	}
+	light := d.mon.light
+	abandon := func(upTo int, why string) {
+		for _, g := range groups[:upTo] {
+			if light {
+				d.mon.acceptFail(g.p, g.dec, g.ids, why, true)
+			} else {
+				d.mon.chunkFail(g, why, true)
+			}
+		}
+	}
+	delay := 0
+	for i, g := range groups {
+		g.dec = d.mon.acceptBegin(g.p, ctx, g.ids)
+		if g.dec.skip {
+			abandon(i, "context of the Batcher cancelled")
+			return nil, ctx.Err()
+		}
+		if !light {
+			d.mon.chunkBegin(g)
+		}
+		delay = max(delay, g.dec.delayUS)
+	}
+	if delay > 0 {
+		select {
+		case <-time.After(time.Duration(delay) * time.Microsecond):
+		case <-ctx.Done():
+			abandon(len(groups), "context cancelled during slow accept")
+			return nil, ctx.Err()
+		}
+	}
+	errs := make([]error, len(logs))
+	refused := 0
+	var lastErr error
+	for _, g := range groups {
+		var err error
+		switch {
+		case g.dec.fail:
+			if light {
+				d.mon.acceptFail(g.p, g.dec, g.ids, g.dec.why, false)
+			} else {
+				d.mon.chunkFail(g, g.dec.why, false)
+			}
+			err = errors.New("c33: injected exporter failure (" + g.dec.why + ")")
+		case light:
+			if !d.mon.acceptAck(g.p, g.dec, ctx, g.ids, nil, nil, nil) {
+				err = ctx.Err()
+			}
+		default:
+			if !d.mon.chunkAck(g, ctx, d.mem.ledgers[g.p.plan.Ledger].count) {
+				err = ctx.Err()
+			}
+		}
+		if err != nil {
+			refused++
+			lastErr = err
+			for _, i := range g.at {
+				errs[i] = err
+			}
+		}
+	}
+	if refused == 0 {
+		return errs, nil
+	}
+	if refused == len(groups) && (len(groups) > 1 || groups[0].dec.attempt%2 == 0) {
+		d.mon.nGlobalErrs.Add(1)
+		return nil, lastErr // the whole chunk refused: global error
+	}
+	d.mon.nPerItemErrChunks.Add(1)
+	return errs, nil // refusals reported per item
 }
 
 type c33Validator struct{}
